@@ -2,6 +2,7 @@ package wasi_snapshot_preview1
 
 import (
 	"context"
+	"math"
 	"time"
 
 	"github.com/tetratelabs/wazero/api"
@@ -57,6 +58,9 @@ func pollOneoffFn(_ context.Context, mod api.Module, params []uint64) sys.Errno 
 
 	if nsubscriptions == 0 {
 		return sys.EINVAL
+	} else if nsubscriptions > math.MaxUint32/48 {
+		// The subscriptions cannot fit in memory: the buffer sizes below would wrap around.
+		return sys.EFAULT
 	}
 
 	mem := mod.Memory()
